@@ -50,6 +50,7 @@ type store struct {
 	objs   map[string][]byte
 	writes []lockWrite // effective Replace writes of checkpoint registers, in order
 	ups    []string    // effective uploads: key + "\x00" + data
+	upsAt  []int       // len(writes) at the moment of each effective upload (what was on record when it became public)
 	cfgKey [32]byte
 }
 
@@ -208,6 +209,7 @@ func (b simBackend) Upload(ctx context.Context, key string, data []byte, opts *c
 	if f != fFail {
 		b.st.objs[key] = bytes.Clone(data)
 		b.st.ups = append(b.st.ups, key+"\x00"+string(data))
+		b.st.upsAt = append(b.st.upsAt, len(b.st.writes))
 	}
 	if f != fOK {
 		return errInjected
